@@ -50,12 +50,27 @@ def rule_P1(ctx):
         for d in defs:
             if isinstance(d.value, ast.Attribute) and d.value.attr == "export_name":
                 return True, ""
-        # membership test dominating the use
-        for i in ast.walk(loop):
-            if isinstance(i, ast.If) and isinstance(i.test, ast.Compare) and len(i.test.ops) == 1 and isinstance(i.test.ops[0], ast.In) \
-                    and norm(i.test.left) == k.id and norm(i.test.comparators[0]) in (sample_dict, sample_dict + ".keys()"):
-                if any(n is at_stmt for b in i.body for n in ast.walk(b)):
-                    return True, ""
+        # membership established on every iteration path that reaches the use (`if k in d:` around it, or `if k not in d: continue` before it)
+        lp_ = cfg.loop_of(loop)
+        target = cfg.node_of.get(id(at_stmt))
+        reached = 0
+        for kind_, path_, edge_ in cfg.iteration_paths(lp_):
+            ids = [x for x, lab in path_]
+            if target not in ids:
+                continue
+            reached += 1
+            member = False
+            for x, lab in path_[:ids.index(target)]:
+                nd = cfg.nodes[x]
+                if nd.kind == "test" and isinstance(nd.ast, ast.If) and isinstance(nd.ast.test, ast.Compare) and len(nd.ast.test.ops) == 1 \
+                        and norm(nd.ast.test.left) == k.id and norm(nd.ast.test.comparators[0]) in (sample_dict, sample_dict + ".keys()"):
+                    op = nd.ast.test.ops[0]
+                    if (isinstance(op, ast.In) and lab == "true") or (isinstance(op, ast.NotIn) and lab == "false"):
+                        member = True
+            if not member:
+                return False, f"key `{k.id}` is neither an export_name nor checked to be a key of `{sample_dict}`"
+        if reached:
+            return True, ""
         return False, f"key `{k.id}` is neither an export_name nor checked to be a key of `{sample_dict}`"
 
     n_sub = 0
@@ -87,7 +102,7 @@ def rule_P1(ctx):
                      and norm(s.targets[0].value) == marked and norm(s.value) == "True"]
         combines = [c for k, s, l in stmts if k == "stmt" for c in ast.walk(s) if isinstance(c, ast.Call) and norm(c.func) == "combine_stereo"]
         lines = sorted({getattr(s, "lineno", 0) for k, s, l in stmts})
-        if is_continue:
+        if not appends and not combines:
             guards = [s for k, s, l in stmts if k == "test" and isinstance(s, ast.If) and l == "true" and norm(s.test) == f"{marked}[name]"]
             ok = bool(guards) and not appends and not combines
             ctx.ob("P1", loop, "a sample is skipped only because it was already consumed as the other half of a pair", ok,
@@ -104,7 +119,9 @@ def rule_P1(ctx):
                "" if ok else f"{len(other)} partner marks vs {len(combines)} combine_stereo calls on the path through lines {lines}", inst=f"partner-mark:{lines[-3:]}:{len(combines)}")
         if combines:
             # what is appended is the combined sample
-            ok = norm(appends[0].value.args[0]) == "result_sample" and any(isinstance(s, ast.Assign) and norm(s.targets[0]) == "result_sample" and combines[0] in list(ast.walk(s)) for k, s, l in stmts)
+            arg0 = appends[0].value.args[0] if appends and appends[0].value.args else None
+            ok = arg0 is combines[0] or (isinstance(arg0, ast.Name) and [s for k, s, l in stmts if k == "stmt" and isinstance(s, ast.Assign) and norm(s.targets[0]) == arg0.id][-1:] != []
+                                         and [s for k, s, l in stmts if k == "stmt" and isinstance(s, ast.Assign) and norm(s.targets[0]) == arg0.id][-1].value is combines[0])
             ctx.ob("P1", loop, "the pair is emitted as the combined sample", ok, "", inst="emit-combined")
             # partner is looked up under the alternate name
             ok = any(isinstance(s, ast.Assign) and norm(s.targets[0]) == "alternate_sample" and norm(s.value) == f"{sample_dict}[alternate_name]" for k, s, l in stmts)
@@ -181,9 +198,11 @@ def rule_P2(ctx):
         def assume(text):
             if text.startswith("marked[") or (text.split("[")[0] in ("marked",)):
                 return False
+            if " not in " in text:
+                return False  # the partner exists: membership tests succeed
             return True
 
-        mi = Mini(ctx, fn._module, env={"match.group(3)": g3, "match.group(1)": "STEM", "match.group(2)": "-", lv: Sym("VISITED"),
+        mi = Mini(ctx, fn._module, env={"match.group(3)": g3, "match.group(1)": "STEM", "match.group(2)": "-", "match.groups()": ("STEM", "-", g3), lv: Sym("VISITED"),
                                           f"{lv}.export_name": "STEM-" + g3}, assume=assume, special=special)
         mi.run(loop.body)
         combos = [(args, kw) for ft, args, kw, node in mi.calls if ft == "combine_stereo"]
@@ -220,35 +239,23 @@ def rule_P3(ctx):
     from .sem import grow_events, local_function
     fn = ctx.fn("smpl_extract/generalized/sample.py", "combine_stereo", "P3")
     l, r = fn.args.args[0].arg, fn.args.args[1].arg
-    # the data stream list of the result: left's streams followed by right's
-    ev = [(n, k, v) for n, k, v in grow_events(fn, "result.data_streams")]
-    asg = [a for a in own_nodes(fn) if isinstance(a, ast.Assign) and len(a.targets) == 1 and norm(a.targets[0]) == "result.data_streams"]
-    ok = False
-    det = "no statement adds the right sample's streams after the left's"
-    if len(ev) == 1 and ev[0][1] in ("iadd", "extend", "concat") and norm(ev[0][2]) in (f"{r}.data_streams", f"list({r}.data_streams)"):
-        ok, det = True, ""
-    elif len(ev) == 1:
-        det = f"`{norm(ev[0][0])}` does not append the right streams after the left ones"
-    for a in asg:
-        if norm(a.value) in (f"{l}.data_streams + {r}.data_streams", f"list({l}.data_streams) + list({r}.data_streams)", f"[*{l}.data_streams, *{r}.data_streams]"):
-            ok, det = True, ""
-    ctx.ob("P3", fn, "combined streams = left's streams followed by right's streams", ok, det, inst="stream-order")
-    # the result is built from the left sample's fields through a shallow copy (left's own list is not extended)
-    texts = [full(fn)]
-    for c in own_nodes(fn):
-        if isinstance(c, ast.Call) and isinstance(c.func, ast.Name) and any(norm(a) == l for a in c.args):
-            h = local_function(ctx, fn._module, c.func.id)
-            if h is not None:
-                texts.append(full(h))
-    t = " ".join(texts)
-    ok = ("copy.copy(" in t or "copy(" in t) and "fields(" in t and any(isinstance(c, ast.Call) and norm(c.func) == "Sample" and any(k.arg is None for k in c.keywords) for c in own_nodes(fn))
-    ctx.ob("P3", fn, "the result starts as a shallow copy of every field of the left sample (its stream list is a new list)", ok, "", inst="copy-left")
-    asg2 = {norm(a.targets[0]): (norm(a.value), a.lineno) for a in own_nodes(fn) if isinstance(a, ast.Assign) and len(a.targets) == 1}
-    ok = asg2.get("result.num_channels", ("", 0))[0] == "len(result.data_streams)" and asg2.get("result.channel_config", ("", 0))[0] == "ChannelConfig.STEREO_SPLIT_STREAMS"
-    ctx.ob("P3", fn, "channel count = number of combined streams", ok, "", inst="num-channels")
-    add_line = max([n.lineno for n, k, v in ev] + [a.lineno for a in asg] + [0])
-    ok = asg2.get("result.num_channels", ("", 0))[1] > add_line > 0
-    ctx.ob("P3", fn, "the channel count is taken after the right streams were added", ok, "", inst="count-after-add")
+    from .sem import record_fields
+    nn = fn.args.args[2].arg if len(fn.args.args) > 2 else "new_name"
+    recs = {}
+    for case in (True, False):
+        recs[case] = record_fields(fn, lambda t, c=case: (c if (f"{nn} is not None" == t) else ((not c) if f"{nn} is None" == t else None)))
+    if recs[True] is None or recs[False] is None:
+        raise AnalysisError("P3", where(fn), "combine_stereo: how the result's fields are produced is not understood (unrecognised form)")
+    rec, order = recs[True]
+    ds = rec.get("data_streams")
+    ok = ds == ("iadd", f"{r}.data_streams") or ds in (f"{l}.data_streams + {r}.data_streams", f"list({l}.data_streams) + list({r}.data_streams)", f"[*{l}.data_streams, *{r}.data_streams]")
+    ctx.ob("P3", fn, "combined streams = left's streams followed by right's streams", ok, "" if ok else f"data_streams = {ds}", inst="stream-order")
+    ok = rec.get("__base__") == l and rec.get("__class__") == "Sample"
+    ctx.ob("P3", fn, "the result starts as a shallow copy of every field of the left sample (its stream list is a new list)", ok, f"{rec.get('__base__')}", inst="copy-left")
+    ok = rec.get("num_channels") in ("len(result.data_streams)",) and rec.get("channel_config") == "ChannelConfig.STEREO_SPLIT_STREAMS"
+    ctx.ob("P3", fn, "channel count = number of combined streams", ok, "" if ok else f"num_channels={rec.get('num_channels')}, channel_config={rec.get('channel_config')}", inst="num-channels")
+    ok = "num_channels" in order and "data_streams" in order and order.index("num_channels") > order.index("data_streams")
+    ctx.ob("P3", fn, "the channel count is taken after the right streams were added", ok, f"{order}", inst="count-after-add")
 
 
 # ------------------------------------------------------------------------ P4
